@@ -387,6 +387,167 @@ theorem C26_witness_parseHex_old_panics :
     (parseText (str "1 beginbfchar <4" ++ [0xC3, 0xA9] ++ str "4> <0041> endbfchar")).isSome = true := by
   decide +kernel
 
+/-! ### `hex_string` / `parse_hex` and `string_to_utf16_be_bytes` / `to_unicode` are inverse — the two
+halves of the builder → parser round trip that are not tokenizer framing -/
+
+def isUpHex (c : Nat) : Bool := (48 ≤ c && c ≤ 57) || (65 ≤ c && c ≤ 70)
+
+theorem upHex_facts {c : Nat} (h : isUpHex c = true) :
+    c ≠ 0x3C ∧ c ≠ 0x3E ∧ isWsChar c = false ∧ c < 0x80 := by
+  have hc : c < 71 := by
+    simp only [isUpHex, Bool.or_eq_true, Bool.and_eq_true, decide_eq_true_eq] at h
+    omega
+  have key : ∀ c, c < 71 → isUpHex c = true → (c ≠ 0x3C ∧ c ≠ 0x3E ∧ isWsChar c = false ∧ c < 0x80) := by
+    decide
+  exact key c hc h
+
+theorem hexUpper_pair : ∀ x, x < 256 →
+    (isUpHex (hexUpper (x / 16)) = true ∧ isUpHex (hexUpper (x % 16)) = true ∧
+      hexPair (hexUpper (x / 16)) (hexUpper (x % 16)) = some x) := by
+  decide +kernel
+
+theorem mem_hexString {b : Bytes} (hb : AllByte b) {c : Nat} (hc : c ∈ hexString b) : isUpHex c = true := by
+  simp only [hexString, List.mem_flatMap, List.mem_cons, List.not_mem_nil, or_false] at hc
+  obtain ⟨x, hx, hc⟩ := hc
+  have := hexUpper_pair x (hb x hx)
+  rcases hc with rfl | rfl
+  · exact this.1
+  · exact this.2.1
+
+theorem dropWhileEq_id {c : Nat} {l : Bytes} (h : ∀ x ∈ l, x ≠ c) : dropWhileEq c l = l := by
+  cases l with
+  | nil => rfl
+  | cons a r =>
+    have : a ≠ c := h a (by simp)
+    simp [dropWhileEq, this]
+
+theorem hexString_cons (x : Nat) (r : Bytes) :
+    hexString (x :: r) = hexUpper (x / 16) :: hexUpper (x % 16) :: hexString r := by
+  simp [hexString]
+
+theorem hexPairs_hexString (b : Bytes) (hb : AllByte b) : hexPairs (hexString b) = some b := by
+  induction b with
+  | nil => rfl
+  | cons x r ih =>
+    have hx := hexUpper_pair x (hb x (by simp))
+    have hr : AllByte r := fun y hy => hb y (by simp [hy])
+    rw [hexString_cons]
+    simp only [hexPairs, hx.2.2, ih hr]
+
+theorem hexString_length (b : Bytes) : (hexString b).length = 2 * b.length := by
+  induction b with
+  | nil => rfl
+  | cons x r ih => rw [hexString_cons]; simp only [List.length_cons, ih]; omega
+
+/-- `parse_hex` reads back what `hex_string` writes — for byte strings of any length. -/
+theorem C26_parseHex_hexString (b : Bytes) (hb : AllByte b) : parseHex (hexString b) = some b := by
+  have hm : ∀ c ∈ hexString b, c ≠ 0x3C ∧ c ≠ 0x3E ∧ isWsChar c = false ∧ c < 0x80 :=
+    fun c hc => upHex_facts (mem_hexString hb hc)
+  have e1 : dropWhileEq 0x3C (hexString b) = hexString b := dropWhileEq_id fun x hx => (hm x hx).1
+  have e2 : (dropWhileEq 0x3E (hexString b).reverse).reverse = hexString b := by
+    rw [dropWhileEq_id fun x hx => (hm x (by simpa using hx)).2.1, List.reverse_reverse]
+  have e3 : (hexString b).filter (fun c => !isWsChar c) = hexString b := by
+    rw [List.filter_eq_self]
+    intro c hc
+    simp [(hm c hc).2.2.1]
+  have e4 : (hexString b).any (fun c => decide (c ≥ 0x80)) = false := by
+    rw [List.any_eq_false]
+    intro c hc
+    have := (hm c hc).2.2.2
+    simp only [ge_iff_le, decide_eq_true_eq]
+    omega
+  have e5 : ((hexString b).length % 2 != 0) = false := by
+    rw [hexString_length]; simp
+  simp only [parseHex, e1, e2, e3, e4, e5, Bool.false_eq_true, if_false]
+  exact hexPairs_hexString b hb
+
+example : parseHex (hexString [0x00, 0xAB, 0xFF]) = some [0x00, 0xAB, 0xFF] := by decide
+
+
+/-- Unicode scalar value -/
+def IsScalar (c : Nat) : Prop := c < 0xD800 ∨ (0xDFFF < c ∧ c ≤ 0x10FFFF)
+
+theorem units_pairs (us : List Nat) : units (us.flatMap fun u => [u / 256, u % 256]) = us := by
+  induction us with
+  | nil => rfl
+  | cons u r ih =>
+    simp only [List.flatMap_cons, List.cons_append, List.nil_append, units, ih]
+    have := Nat.div_add_mod u 256
+    congr 1
+    omega
+
+theorem pairs_length (us : List Nat) : (us.flatMap fun u => [u / 256, u % 256]).length = 2 * us.length := by
+  induction us with
+  | nil => rfl
+  | cons u r ih => simp only [List.flatMap_cons, List.length_append, List.length_cons, List.length_nil, ih]; omega
+
+theorem utf16Strict_enc (s : List Nat) (hs : ∀ c ∈ s, IsScalar c) : utf16Strict (s.flatMap utf16Enc) = some s := by
+  induction s with
+  | nil => rfl
+  | cons c r ih =>
+    have hc : IsScalar c := hs c (by simp)
+    have hr : ∀ x ∈ r, IsScalar x := fun x hx => hs x (by simp [hx])
+    have ih' := ih hr
+    simp only [List.flatMap_cons]
+    by_cases h16 : c < 0x10000
+    · have hns : c < 0xD800 ∨ 0xDFFF < c := by rcases hc with h | h <;> omega
+      have e : utf16Enc c = [c] := by simp [utf16Enc, h16]
+      rw [e]
+      simp only [List.cons_append, List.nil_append]
+      rw [utf16Strict.eq_def]
+      simp only [hns, if_true, ih', Option.map_some]
+    · have hle : c ≤ 0x10FFFF := by rcases hc with h | h <;> omega
+      have e : utf16Enc c = [0xD800 + (c - 0x10000) / 1024, 0xDC00 + (c - 0x10000) % 1024] := by
+        simp [utf16Enc, h16]
+      rw [e]
+      simp only [List.cons_append, List.nil_append]
+      have h1 : ¬ (0xD800 + (c - 0x10000) / 1024 < 0xD800 ∨ 0xDFFF < 0xD800 + (c - 0x10000) / 1024) := by omega
+      have h2 : 0xD800 + (c - 0x10000) / 1024 ≤ 0xDBFF := by omega
+      have h3 : 0xDC00 ≤ 0xDC00 + (c - 0x10000) % 1024 ∧ 0xDC00 + (c - 0x10000) % 1024 ≤ 0xDFFF := by omega
+      have h4 : 0x10000 + (0xD800 + (c - 0x10000) / 1024 - 0xD800) * 1024 + (0xDC00 + (c - 0x10000) % 1024 - 0xDC00) = c := by
+        omega
+      rw [utf16Strict.eq_def]
+      simp only [h1, h2, h3, if_false, if_true, and_self, ih', Option.map_some, h4]
+
+/-- `to_unicode` reads back what `string_to_utf16_be_bytes` writes — for strings of any length. -/
+theorem C26_toUnicode_utf16be (s : List Nat) (hs : ∀ c ∈ s, IsScalar c) : toUnicode (utf16beBytes s) = some s := by
+  unfold toUnicode utf16beBytes
+  have hl : ((s.flatMap utf16Enc).flatMap fun u => [u / 256, u % 256]).length % 2 = 0 := by
+    rw [pairs_length]; omega
+  simp only [hl, beq_self_eq_true, if_true, units_pairs]
+  exact utf16Strict_enc s hs
+
+example : toUnicode (utf16beBytes [0x41, 0x1F600, 0xFFFD]) = some [0x41, 0x1F600, 0xFFFD] := by decide
+
+
+theorem utf16beBytes_allByte (s : List Nat) (hs : ∀ c ∈ s, IsScalar c) : AllByte (utf16beBytes s) := by
+  intro b hb
+  simp only [utf16beBytes, List.mem_flatMap, List.mem_cons, List.not_mem_nil, or_false] at hb
+  obtain ⟨u, ⟨c, hc, hu⟩, hb⟩ := hb
+  have hsc := hs c hc
+  have hu16 : u < 65536 := by
+    unfold utf16Enc at hu
+    split at hu
+    · simp only [List.mem_cons, List.not_mem_nil, or_false] at hu; omega
+    · simp only [List.mem_cons, List.not_mem_nil, or_false] at hu
+      have hle : c ≤ 0x10FFFF := by rcases hsc with h | h <;> omega
+      rcases hu with hu | hu <;> omega
+  rcases hb with rfl | rfl <;> omega
+
+/-- One `<code> <destination>` line of `ToUnicodeCMapBuilder::build`, read back by the parser's
+`parse_hex` and `to_unicode`: exactly the code and the string that were added — for codes and
+strings of any length (the tokenizer's framing of the line is covered by the correspondence run and
+by `C26_builder_roundtrip_instance`). -/
+theorem C26_builder_entry_roundtrip (code : Bytes) (s : List Nat) (hc : AllByte code)
+    (hs : ∀ c ∈ s, IsScalar c) :
+    parseHex (hexString code) = some code ∧
+    (parseHex (hexString (utf16beBytes s))).bind toUnicode = some s := by
+  refine ⟨C26_parseHex_hexString code hc, ?_⟩
+  rw [C26_parseHex_hexString _ (utf16beBytes_allByte s hs)]
+  exact C26_toUnicode_utf16be s hs
+
+example : (parseHex (hexString (utf16beBytes [0x66, 0x1F600]))).bind toUnicode = some [0x66, 0x1F600] := by decide
+
 /-! ### array form, tokenizer, builder: concrete end-to-end instances (kernel-evaluated) -/
 
 /-- The array form assigns the i-th destination to `lo + i`, across a byte carry. -/
